@@ -364,13 +364,27 @@ func heapIndexTerms(t string, max int) []string {
 					if _, lit := intLit(p[2]); !lit {
 						seen[p[2]] = true
 						// offset = base offset of the slice + index: the index is what spec quantifiers range over
+						scaled := func(part string) {
+							// index scaled by the element size: the index itself
+							if r := splitSexp(part); r != nil && (r[0] == "bvmul" || r[0] == "*") && len(r) == 3 {
+								for _, f := range r[1:] {
+									if _, lit := intLit(f); !lit && !seen[f] && !strings.HasPrefix(f, "(_ bv") {
+										seen[f] = true
+										out = append(out, f)
+									}
+								}
+							}
+						}
 						if q := splitSexp(p[2]); q != nil && (q[0] == "+" || q[0] == "bvadd") && len(q) == 3 {
 							for _, part := range q[1:] {
 								if _, lit := intLit(part); !lit && !seen[part] && !strings.HasPrefix(part, "(select (select |H_") {
 									seen[part] = true
 									out = append(out, part)
 								}
+								scaled(part)
 							}
+						} else {
+							scaled(p[2])
 						}
 						out = append(out, p[2])
 					}
